@@ -614,8 +614,8 @@ def resampleStepwise(xin, yin, xout, avg=True):
     for i in range(1, len(bins)):
         start = bins[i - 1]
         end = bins[i]
-        chunk = yin[start - 1 : end]
-        length = xin[start - 1 : end + 1]
+        chunk = yin[max(start - 1, 0) : end]
+        length = xin[max(start - 1, 0) : end + 1]
         length = [length[j] - length[j - 1] for j in range(1, len(length))]
         # the fraction of each xin bin that lies inside this xout bin (for summing)
         scale = [1.0] * len(chunk)
@@ -648,6 +648,11 @@ def resampleStepwise(xin, yin, xout, avg=True):
                 length[0] *= fraction
             else:
                 scale[0] -= 1.0 - fraction
+
+        # if the xout only touches the xin range
+        if not len(chunk):
+            yout.append(0)
+            continue
 
         # return the sum or the average
         if [1 for c in chunk if (not hasattr(c, "__len__") and c is None)]:
